@@ -131,6 +131,11 @@ func play(sc Script, out *bufio.Writer) {
 			key := fmt.Sprintf("f%d", st.A)
 			l.UpdateContext(func(c zerolog.Context) zerolog.Context { return c.Str(key, pad) })
 			slots[st.I].l = l
+		case "UpdateReset":
+			l := slots[st.I].l
+			key := fmt.Sprintf("f%d", st.A)
+			l.UpdateContext(func(c zerolog.Context) zerolog.Context { return c.Reset().Str(key, pad) })
+			slots[st.I].l = l
 		case "Drop":
 			slots[st.I] = slot{}
 		case "Emit":
